@@ -4,6 +4,11 @@ import json, subprocess
 
 # id: (level, engine, technique, level text, level note, design ref)
 CHECKS = {
+ "C18": ("model_checking", "explore+sched",
+         "explicit-state exploration of API histories against a registry model, plus exhaustive thread interleavings (shuttle DFS) at grid-cache lock and API-call boundaries",
+         "All histories of depth 1..3 over 32 actions (register_op, register_resource, op on two contexts; names with/without colon, colliding with built-ins, file-based macros) and depth 4 over 26 (thorough: 4 full, 5 reduced), for Minimal and Plain: a registry model predicts what every op call binds (documented resolution order, errors for unknown names); in the final state every live operator must have the fingerprint, step list and parameters it had at creation, handles are pairwise distinct and rejected by other contexts. All Plain grid-cache histories of depth <= 5 (thorough 7) over instantiate (two contexts) / clear_grids / rewrite / delete the grid file, with every live operator re-checked after every action. 1728 generated register-file layouts (items, order, LF/CRLF/CR, terminator, prose, prefix names, separate resource file). Three (thorough four) 3-thread harnesses explored over all interleavings with shuttle's DFS scheduler (hook H4 yields before each GRIDS lock).",
+         "Trusts the registry model (user operators are 'add k' so the chosen binding is observable) and shuttle's serialised execution: switches happen only at API-call boundaries and immediately before each grid-cache lock acquisition; weak-memory effects are not modelled. If the exploration process is killed by a signal the supervisor reports a violation.",
+         "DESIGN.md §3 C18"),
  "C17": ("model_checking", "explore",
          "exhaustive enumeration of the PROJ program tree (steps x modifiers x pipeline options x layouts), Plain::op(PROJ) vs. an independent translator's Geodesy counterpart",
          "Every PROJ pipeline of 1..2 steps over 11 shared operator forms (incl. k -> k_0 and a/rf -> ellps) x {none, inv, omit_fwd, omit_inv} per step, and 3 steps over a reduced set (thorough: 6 forms at length 3, 2 at length 4), crossed with pipeline-level inv, three global sets (none, ellps, keys clashing with step-local ones), three '+' styles, three layouts (one line, line per step, CRLF with leading and trailing comments), explicit/implicit proj=pipeline and modifier before/after proj=: the operator Plain instantiates must have the fingerprint of the harness-rendered Geodesy counterpart (directions exchanged for pipeline-level inv); parse_proj must be idempotent; init clauses and nested pipelines refused; Geodesy texts (also ones containing the substring proj) must keep their meaning.",
@@ -78,7 +83,8 @@ def main():
         },
         "engines": [
             {"name": "space", "path": "/verif/mc/src/engine.rs", "kind_free_text": "exhaustive mixed-radix product enumeration on 16 threads (par_range/decode)", "serves_properties": ["C11", "C16", "C19"]},
-            {"name": "explore", "path": "/verif/mc/src/props", "kind_free_text": "explicit-state / program-tree exploration of the real API against reference models written in Rust", "serves_properties": ["C03", "C04", "C12", "C17"]},
+            {"name": "explore", "path": "/verif/mc/src/props", "kind_free_text": "explicit-state / program-tree exploration of the real API against reference models written in Rust", "serves_properties": ["C03", "C04", "C12", "C17", "C18"]},
+            {"name": "sched", "path": "/verif/mc/src/props/c18.rs", "kind_free_text": "shuttle DfsScheduler over real threads sharing Plain contexts and the process-wide grid cache; yield points from hook H4", "serves_properties": ["C18"]},
             {"name": "workers", "path": "/verif/mc/src/engine.rs", "kind_free_text": "worker subprocesses (2 MiB stack, 4 GiB address space, watchdog) for hang / overflow / abort detection", "serves_properties": ["C04"]},
         ],
         "checks": checks,
